@@ -4,7 +4,9 @@
 (* against IndexerWindow (C31).  Lines:                                    *)
 (*   reset    w, H (blocks of heights 1..H exist), ntx                     *)
 (*   notify   h                                                            *)
-(*   restart                                                               *)
+(*   restart  clean Close + NewIndexer on the same directory               *)
+(*   crash    the process dies without Close: the answers are those of an  *)
+(*            indexer opened on a copy of the live directory               *)
 (* notify / restart carry the answers of every query after the call:       *)
 (*   byh[i]   GetBlockByHeight(i)     byid[i]  GetBlock(id of block i)     *)
 (*   tx[i][j] GetTransaction(id of tx j of block i)   latest GetLatestBlock *)
@@ -40,8 +42,10 @@ TraceInit ==
 TReset   == Ev("reset") /\ w' = T.w /\ delivered' = {} /\ last' = -1 /\ H' = T.H
 TNotify  == Ev("notify") /\ WNotify(T.h) /\ H' = H /\ AnswersOK
 TRestart == Ev("restart") /\ WRestart /\ H' = H /\ AnswersOK
+(* every Notify that returned is durable: what survives a kill answers like the window *)
+TCrash   == Ev("crash") /\ WRestart /\ H' = H /\ AnswersOK
 
-TraceNext == TReset \/ TNotify \/ TRestart
+TraceNext == TReset \/ TNotify \/ TRestart \/ TCrash
 TraceSpec == TraceInit /\ [][TraceNext]_tvars
 
 WTypeOK == w >= 1 /\ last >= -1 /\ \A h \in delivered : h <= last
